@@ -595,6 +595,7 @@ func term(in Input, o Obs) string {
 func main() {
 	a := lib.ParseArgs()
 	whr.UseSoft = true
+	whr.NoIDAtoms = true // a twin differs from its original in the key only
 	db, _, _, err := gdb.Open(gdb.Opt{Config: &gorm.Config{NowFunc: func() time.Time { return t2 }}})
 	lib.Must(err)
 	lib.Must(db.AutoMigrate(&whr.TS{}, &Owner{}, &Kid{}, &Keeper{}, &Pet{}))
@@ -616,7 +617,7 @@ func main() {
 		out.Count("leading_call", lead)
 		for _, c := range in.Chain {
 			out.Count("call", c.Kind)
-			out.Count("form", c.Unit.Form)
+			out.Count("form", c.Unit.Form+"/"+c.Unit.Via)
 		}
 		out.Count("rows_selected", fmt.Sprint(len(o.Find)))
 		out.Count("errors", fmt.Sprint(len(o.Errs)))
